@@ -178,8 +178,16 @@ def run_check(pid, tier, seed, PROPS, verbose=False):
         if not have_input:
             violations.append(('obligation %s refuted (%s)' % (r.obl.name, r.backend),
                                obligation_replay(pid, r, 'P-clause of %s' % pid), 'no-failing-input-found'))
+    # an auxiliary obligation (invariant, callee precondition, frame) of the property's closure that z3 refutes with a
+    # counter-model was discharged on the unchanged tree and now fails: reported as a violation of the property
+    # (DESIGN 3.8 as amended); without a model it stays undecided
     for r in a_open:
-        undecided.append('auxiliary obligation refuted: %s' % r.obl.name)
+        if r.model is not None and not have_input:
+            violations.append(('auxiliary obligation %s refuted (%s) with a counter-model' % (r.obl.name, r.backend),
+                               obligation_replay(pid, r, 'auxiliary clause in the closure of %s' % pid),
+                               'no-failing-input-found'))
+        elif r.model is None:
+            undecided.append('auxiliary obligation refuted without a model: %s' % r.obl.name)
     for r in R['unknown']:
         undecided.append('obligation undecided (%s): %s' % (r.backend, r.obl.name))
     for k, why in out_of_reach.items():
